@@ -59,12 +59,12 @@ unsafe fn deliver(sig: i32) {
     EXPECT_INFO.with(|e| e.set((ip as usize, cp as usize)));
     let h = old.sa_sigaction;
     if h == reg::verif_api::handler_addr() {
-        sched::user_point(OP_START, 0, sig as i64, 1);
+        sched::user_note(OP_START, 0, sig as i64, 1);
         reg::verif_api::dispatch(sig, ip, cp);
     } else if h == libc::SIG_DFL || h == libc::SIG_IGN {
-        sched::user_point(OP_START, 0, sig as i64, 0);
+        sched::user_note(OP_START, 0, sig as i64, 0);
     } else {
-        sched::user_point(OP_START, 0, sig as i64, 2);
+        sched::user_note(OP_START, 0, sig as i64, 2);
         if old.sa_flags & libc::SA_SIGINFO == 0 {
             let f: extern "C" fn(libc::c_int) = std::mem::transmute(h);
             f(sig);
@@ -125,12 +125,12 @@ fn run_scenario(sc: Scenario) -> String {
         acts.push(match k {
             1 => Box::new(move || unsafe { deliver(a as i32) }),
             2 => Box::new(move || {
-                sched::user_point(OP_START, 0, a, 0);
+                sched::user_note(OP_START, 0, 0, 0);
                 let r = do_register(a as i32, b);
                 sched::user_note(OP_RET, 0, 0, r.is_some() as i64);
             }),
             3 => Box::new(move || {
-                sched::user_point(OP_START, 0, a, 0);
+                sched::user_note(OP_START, 0, 0, 0);
                 let r = match ids2.get(a as usize) {
                     Some(id) => reg::unregister(*id),
                     None => false,
@@ -138,7 +138,7 @@ fn run_scenario(sc: Scenario) -> String {
                 sched::user_note(OP_RET, 0, 0, r as i64);
             }),
             _ => Box::new(move || {
-                sched::user_point(OP_START, 0, a, 0);
+                sched::user_note(OP_START, 0, 0, 0);
                 #[allow(deprecated)]
                 let r = reg::unregister_signal(a as i32);
                 sched::user_note(OP_RET, 0, 0, r as i64);
